@@ -54,6 +54,26 @@ CHECKS = {
             "deterministic simulation: refresh-deadline upper-bound oracle", "§5 C39"),
 }
 
+ENGINE_C = "C (history): real SharedHistory driven through Server::process_once, queried through PayloadSource and the real HTTP dispatcher"
+CHECKS.update({
+    "C12": (ENGINE_C, "exploration",
+            "Histories of 4-40 versions with items toggling; clients at every lag within retention; the change set merged on demand from retained change sets must equal the direct change set action for action and lead to the current data.",
+            "ASPA items are not part of Engine C data sets (origins and router keys only); the direct change set comes from PayloadDelta::construct on the real snapshots.",
+            "deterministic simulation: update histories vs lagging clients, merged-vs-direct oracle", "§5 C12"),
+    "C13": (ENGINE_C, "exploration",
+            "Histories longer than the retention window, start serial seeded anywhere in the 32-bit space; clients at every issued serial, evicted serials, current+1, +/-2^31, foreign session, random; each answer (PayloadSource::diff and /json-delta) is a refusal or an exact change set tagged with the current serial; the last min(history-size, changes) serials must be served; never-issued serials must be refused.",
+            "Weakest reading of 'last history-size serials' (counts the current one); RTR wire encoding not exercised here.",
+            "deterministic simulation: serial-space histories, exact-or-refused oracle against a version-vector model", "§5 C13"),
+    "C14": (ENGINE_C, "exploration",
+            "Run sequences mixing changing, non-changing and failing runs for history-size in {0,1,2,3,10,65535}; serial = start + number of changes; retained change sets <= max(history-size,1).",
+            "Retention read through the verif_retained hook.",
+            "deterministic simulation: run-outcome sequences vs counter model", "§5 C14"),
+    "C33": (ENGINE_C, "exploration",
+            "Histories interleaving successful runs with forced retryable/fatal failures; everything a client can observe (ready, session, serial, data, retained, ETag, Last-Modified, created, pending notify subscriber) is identical before and after a failed update cycle.",
+            "Failures are forced at the start of ValidationReport::process (hook H5).",
+            "deterministic simulation: forced run failures, before/after observation equality", "§5 C33"),
+})
+
 NOT_APPLICABLE = {
     "C11": "pure function of two data sets: no schedule, clock, fault, crash point or peer can change its outcome (DESIGN §5)",
     "C18": "serialiser: pure function of (change set, session, serials); no simulated dimension influences it",
